@@ -622,7 +622,8 @@ GRID_DOC = {
         'T4': 'mapping x MLe x MLc x mfs full product, FSCI 0..8 and A/B '
               'rotated; lengths all if cap<=100 else boundary sets + '
               'multiples of max(MLc,64); plus one mapping 3.0 tag with a '
-              '33368 byte file (MLe 256, MLc 255)',
+              '33368 byte file (MLe 256, MLc 255), additionally lengths '
+              '32760..32771 and 32890..32892',
     },
     'thorough': {
         'combos(pattern,previous)': 'T1/T2 cap<=300: all 4 patterns x 3 '
@@ -636,13 +637,23 @@ GRID_DOC = {
               'with multiples of 64; emulation with 1..64 blocks x 4 (Nbr,Nbw)',
         'T4': 'full product + FSCI x A/B crossed with 4 (MLe,MLc) corners; '
               'lengths all if cap<=300 else boundary sets + multiples of '
-              'max(MLc,16); plus the 33368 byte mapping 3.0 tag',
+              'max(MLc,16); plus the 33368 byte mapping 3.0 tag (additionally '
+              'lengths 32760..32771, 32890..32892)',
     },
 }
 
 
 def plan(case, tier):
     """(lengths, combos) explored for `case` in `tier` (see GRID_DOC)."""
+    ls, combos = _plan(case, tier)
+    if case.kind == 'T4' and case.ref_capacity() > 0x8000:
+        # around the first READ / UPDATE BINARY offset that needs 16 bits
+        extra = set(range(0x8000 - 8, 0x8000 + 4)) | {32890, 32891, 32892}
+        ls = sorted(set(ls) | extra)
+    return ls, combos
+
+
+def _plan(case, tier):
     cap = case.ref_capacity()
     tlvk = case.kind in ('T1', 'T2')
     if tier != 'thorough':
